@@ -118,8 +118,16 @@ def c19_categorize(n):
     return ('ok', [(SX.raw(t.text), t.position, int(t.category)) for t in toks])
 
 
-def c19_tokenize(n):
+C19_FRAMES = [('\\left', ''), ('\\right', 'x'), ('\\big', ''), ('\\Big', '\\}'), ('\\bigg', ' '), ('\\Bigg', ''), ('$a\\left', 'b\\right)$'),
+              ('x\\\\\\big', ''), ('\\begin{e}\\Big', '\\end{e}'), ('\\left\\l', 'x'), ('\\bigg\\r', 'y'), ('\\item', ''), ('a%b', '\n'),
+              ('\\newcommand', '{x}'), ('{\\a', '}'), ('  \n', '{'), ('\\$$', '$')]
+
+
+def c19_tokenize(n, frame=None):
     s = SX.fresh(n)
+    if frame is not None:
+        s = C19_FRAMES[frame][0] + s + C19_FRAMES[frame][1]
+        n = len(s)
     try:
         toks = list(_tok.tokenize(_cat.categorize(s)))
     except Exception as e:
